@@ -35,7 +35,8 @@ def run(case, ctx: Ctx, chooser: Chooser):
     res, mon = wfcase.run_case(case, ctx, chooser)
     W = case["W"]
     n_edges = sum(len(c["refs"]) for c in W["components"])
-    full = {"W": W, "script": case["script"], "memo": case.get("memo", []), "choices": list(chooser.log)}
+    full = {"W": W, "script": case["script"], "memo": case.get("memo", []), "late": case.get("late") or {},
+            "choices": list(chooser.log)}
     if mon.violations:
         sig, msg = mon.violations[0]
         raise Violation(sig, msg + " | launches=%s" % [l["ref"] for l in mon.launches], case=full)
